@@ -7,6 +7,7 @@ import PyamgV.Proofs.SorAdjoint
 import PyamgV.Proofs.Jacobi
 import PyamgV.Proofs.Kaczmarz
 import PyamgV.Proofs.GsAdjoint
+import PyamgV.Proofs.ExtRelaxRefine
 
 /-! # C09 — relaxation sweeps compute exactly their defining splitting update
 
@@ -79,6 +80,58 @@ example : HasDiag (K := Rat) 0 [(1, -1), (0, 2)] 2 ∧ (2 : Rat) ≠ 0 := by
   · norm_num
 example : K.gaussSeidel (α := Rat) ⟨2, #[0, 2, 4], #[1, 0, 0, 1], #[-1, 2, -1, 2]⟩ #[1, 1] [0, 1] #[0, 0]
     = #[1/2, 3/4] := by decide +kernel
+
+/-! ### the executable array models carry the theory (Proofs/ExtRelaxRefine.lean, Proofs/C02Refine.lean,
+Proofs/C02Jacobi.lean): refinement of SOR and Jacobi, energy non-expansion and fixed points stated for
+`K.gaussSeidel`, `K.sorGaussSeidel`, `K.jacobi`, `K.pyGaussSeidel`, `K.pyJacobi` themselves -/
+
+/-- the executable SOR kernel, read as a function, *is* the row-by-row sweep `sorSweepFn`
+(every row list inside the vector; size preserved) -/
+restate sor_kernel_is_sweep := PyamgV.sorGaussSeidel_refines
+/-- the Python driver `gauss_seidel`/`sor` is ONE kernel sweep over the concatenated row order `pyOrder`
+(plain kernel iff `omega = 1`) -/
+restate py_gauss_seidel_is_one_sweep := PyamgV.pyGaussSeidel_eq
+/-- the executable `jacobi` kernel for ANY row list (duplicates allowed) and ANY caller buffer `temp0` of the
+size of `x` is the Jacobi sweep `jacSweepFn` whose frozen copy is `x` on the swept rows and `temp0` elsewhere -/
+restate jacobi_kernel_is_sweep := PyamgV.jacobi_refines_rows
+/-- ... hence the Jacobi sweep with frozen copy `x` whenever the off-diagonal columns read by the swept rows
+are swept too (or `temp0` already agrees with `x` there) -/
+restate jacobi_kernel_is_sweep_closed := PyamgV.jacobi_refines_rows_closed
+/-- the full-range call issued by `relaxation.jacobi` (`temp0` = zeros of the size of `x`) -/
+restate jacobi_kernel_full_range := PyamgV.jacobi_refines
+/-- array kernel entry-wise: `x_j + omega (b_j - (A x)_j)/d_j` on swept rows, `x_j` elsewhere -/
+restate jacobi_array_formula := PyamgV.jacobi_array_formula
+/-- energy of the error never increases under the Gauss-Seidel array kernel (symmetric PSD operator, one
+stored diagonal per row, any row list; right-hand side hypothesis only on the first `n` coordinates) -/
+restate gauss_seidel_array_nonexp := PyamgV.gaussSeidel_array_nonexp
+/-- the same for the SOR array kernel, `0 <= omega <= 2` -/
+restate sor_array_nonexp := PyamgV.sorGaussSeidel_array_nonexp
+/-- the same for the Python driver: forward, backward, symmetric sweeps, any iteration count -/
+restate py_gauss_seidel_array_nonexp := PyamgV.pyGaussSeidel_array_nonexp
+/-- the Python Jacobi driver under the damping bound `omega |D^-1 r|_A^2 <= 2 <D^-1 r, r>` -/
+restate py_jacobi_array_nonexp := PyamgV.pyJacobi_array_nonexp
+/-- a vector whose swept rows are consistent (`RowOK`: row skipped by the kernel, or one stored diagonal and
+`(A x)_i = b_i`) is returned unchanged AS AN ARRAY by the kernels ... -/
+restate gauss_seidel_array_fixed_point := PyamgV.gaussSeidel_fixed_point
+restate sor_array_fixed_point := PyamgV.sorGaussSeidel_fixed_point
+restate jacobi_array_fixed_point := PyamgV.jacobi_fixed_point
+/-- ... and by the Python drivers, every `omega`, sweep kind and iteration count -/
+restate py_gauss_seidel_fixed_point := PyamgV.pyGaussSeidel_fixed_point
+restate py_jacobi_fixed_point := PyamgV.pyJacobi_fixed_point
+/-- `RowOK` follows from the usual hypotheses (one stored diagonal per row, `A x* = b` on the first `n` rows) -/
+restate rowOK_of_solution := PyamgV.rowOK_of_solution
+/-- non-vacuity of the energy theorems: the 3-point Poisson matrix meets `hsym`, `hpsd`, `HasDiag`; so the
+driver model is non-expansive for all `x, b` in Q^3, `0 <= omega <= 2`, every sweep and iteration count -/
+restate example_py_gauss_seidel_nonexp := PyamgV.example_pyGaussSeidel_nonexp
+
+/-- non-vacuity of the fixed-point theorems: `x* = (1, 1)` solves the unsorted 2x2 system with `b = (1, 1)`;
+`RowOK` holds and the executable drivers reproduce the array -/
+example : RowOK (R := Rat) 0 [(1, -1), (0, 2)] (fun _ => 1) (fun _ => 1) :=
+  Or.inr ⟨2, by simp [HasDiag], by simp [rowDot]; norm_num⟩
+example : K.pyGaussSeidel (α := Rat) (3/2) ⟨2, #[0, 2, 4], #[1, 0, 0, 1], #[-1, 2, -1, 2]⟩ #[1, 1] 2 .symmetric #[1, 1]
+    = #[1, 1] := by decide +kernel
+example : K.pyJacobi (α := Rat) (2/3) ⟨2, #[0, 2, 4], #[1, 0, 0, 1], #[-1, 2, -1, 2]⟩ #[1, 1] 3 #[1, 1]
+    = #[1, 1] := by decide +kernel
 
 /-! ### interface facts regenerated from the working tree on every run (translator tie) -/
 /-- the `kernels_relaxation` table the models assume equals the one regenerated from the source now -/
